@@ -81,6 +81,18 @@ M = [
   "    if len(params) not in expected:", "    if len(params) not in expected and len(params) < min(expected):"),
  ('C17', 'facet_range_unchecked', K + 'Volume/CellConversion.py',
   "            if p_tree.sub > len(t4_ids):", "            if p_tree.sub > len(t4_ids) + 6:"),
+ ('C14', 'fill_transform_plain_float', K + 'FileHandlers/Parser/ParseMCNPCell.py',
+  "        fill_params = [to_float(param)\n                       for param in self.pop_transform_args(kw_list)]",
+  "        fill_params = [float(param)\n                       for param in self.pop_transform_args(kw_list)]"),
+ ('C16', 'bc_ignores_renumbering', K + 'FileHandlers/Writer/WriteT4BoundCond.py',
+  "            key = renumber.get(key, key)", "            key = key"),
+ ('C16', 'bc_written_for_unused_surface', K + 'FileHandlers/Writer/WriteT4BoundCond.py',
+  "        if used is not None and key not in used:\n            continue", "        if used is not None and key not in used:\n            pass"),
+ ('C06', 'lattice_universe_not_shifted', K + 'Volume/CellConversion.py',
+  "            else:\n                new_filltr = tuple(trnsf)", "            else:\n                new_filltr = tuple([0., 0., 0.] + trnsf[3:])"),
+ ('C17', 'fill_array_too_long_accepted', K + 'FileHandlers/Parser/ParseMCNPCell.py',
+  "            if kw_list and kw_list[-1][0] in '0123456789.+-':\n                msg = (f'expected {bounds.size()} universe specifications '",
+  "            if kw_list and kw_list[-1][0] in '0123456789.+-' and False:\n                msg = (f'expected {bounds.size()} universe specifications '"),
  ('C18', 'class_level_transform_cache', K + 'Volume/CellConversion.py',
   "        self.cell_transform_cache = {}\n", "        self.cell_transform_cache = CellConversion._shared_cache\n"),
  ('C18', 'unsorted_volume_sets', K + 'Volume/VolumeT4.py',
